@@ -396,7 +396,7 @@ pub fn run(ctx: &mut Ctx) -> Result<(), Violation> {
     });
     ctx.stage("text-lists-all-operators-all-constants", true, r)?;
 
-    let cases = ctx.tier.pick(100_000, 8_000_000);
+    let cases = ctx.tier.cases(100_000, 8_000_000);
     let r = par_random(ctx, "random", cases, 160, |tape, st| {
         let mut t = Tape::new(tape);
         let mut pool = Vec::new();
